@@ -359,7 +359,10 @@ def subdivide_loop(vertices, faces, iterations=None):
 
         # beta = 1 / k * (5 / 8 - (3 / 8 + 1 / 4 * np.cos(2 * np.pi / k)) ** 2)
         # simplified with sympy.parse_expr('...').simplify()
-        beta = (40.0 - (2.0 * np.cos(2 * np.pi / k) + 3) ** 2) / (64 * k)
+        # a vertex that no face uses has no neighbors: it stays where
+        # it is as its neighbor sum is zero whatever beta is
+        k_safe = np.maximum(k, 1)
+        beta = (40.0 - (2.0 * np.cos(2 * np.pi / k_safe) + 3) ** 2) / (64 * k_safe)
         even = (
             beta[:, None] * vertices_[neighbors].sum(1)
             + (1 - k[:, None] * beta[:, None]) * vertices
